@@ -156,7 +156,11 @@ func c02CaseW(c *kit.Case, withRejected, bigGaps, widths bool) {
 			cfg.NoObjStm = false
 		}
 		if c.Index%8 == 2 {
+			// large xref streams (and tables, one in four)
 			cfg.ManyObjects = 800 + c.Rng.Intn(4000)
+			cfg.Version = gen.Versions[3+c.Index/8%6]
+			cfg.HumanReadable = false
+			cfg.Seekable = c.Index%16 == 10
 		}
 		c.R.Count("programs_at_width_boundaries", 1)
 	}
